@@ -18,7 +18,7 @@ PINS = {
     'PGPKey.pubkey': '8ca1b2d84e32a4d4',
     'PGPKey.__bytearray__': 'cf5c4a72b4df4a15',
     'KeyAction.check_attributes': '5bc1ee5f304ffbd0',
-    'KeyAction.__call__': '4c949a55df3a3092',
+    'KeyAction.__call__': 'c8bb870361fccd66',
 }
 
 
